@@ -248,21 +248,34 @@ func useCmd(src string, from int, s string) eobs {
 		return eobs{kind: "other", note: " head is " + cmpd.Shape(form.Head)}
 	}
 	if v == s && cmdBindable(s) {
+		// the template's own filler commands may have the same name (s = "nop"):
+		// expect one call per form whose head is the literal s
+		expected := countHeads(tree.Root, s)
 		called := 0
 		ns := eval.BuildNs().AddGoFn(s, func(_ eval.RawOptions, _ ...any) { called++ }).Ns()
 		_, _, err := evalValues(src, ns)
-		if err != nil || called != 1 {
-			return eobs{kind: "other", note: fmt.Sprintf(" head literal %q but function %q called %d times, err=%v", v, s, called, err)}
+		if err != nil || called != expected {
+			return eobs{kind: "other", note: fmt.Sprintf(" head literal %q but function %q called %d times (expected %d), err=%v", v, s, called, expected, err)}
 		}
 		return eobs{kind: "str", v: v, note: " (function called)"}
 	}
 	return eobs{kind: "str", v: v}
 }
 
-// cmdBindable: the command name s resolves to the function variable s~ when one
-// exists: no namespace separator, no leading sigil (resolveCmdHeadInternally
-// treats those as external commands), not a special form.  Names with a slash
-// are left out so that a broken quoting can never make the run stat/cd/exec a path.
+// countHeads counts the forms whose head is the string literal s.
+func countHeads(n parse.Node, s string) int {
+	k := 0
+	if f, ok := n.(*parse.Form); ok && f.Head != nil {
+		if v, ok := cmpd.StringLiteral(f.Head); ok && v == s {
+			k++
+		}
+	}
+	for _, ch := range parse.Children(n) {
+		k += countHeads(ch, s)
+	}
+	return k
+}
+
 func cmdBindable(s string) bool {
 	return !strings.Contains(s, ":") && !eval.IsBuiltinSpecial[s] && !strings.HasPrefix(s, "@") &&
 		!strings.Contains(s, "/") && s != ".."
